@@ -396,7 +396,7 @@ def gen_cases(rng, tier):
                 cont, fin = modes(rng, len(sizes) + 1)
                 yield {'op': 'mem', 'fmt': fmt, 'hostile': [seed, tier, idx], 'sizes': sizes, 'cont': cont, 'fin': fin, 'k': 'imgbuild'}
     # 3. the C01 generators (structured mostly-valid images, truncations, mutations, polyglots; small streams, fine chunkings)
-    per = {'quick': 25, 'thorough': 600}[tier]
+    per = {'quick': 16, 'thorough': 600}[tier]
     for fmt in FORMATS:
         bigf = fmt == 'vhdx'
         for _ in range(per // 3 if bigf else per):
